@@ -14,6 +14,7 @@ import (
 
 	"verif/mc/internal/evidence"
 	"verif/mc/internal/harness"
+	"verif/mc/internal/progenum"
 )
 
 func init() { register("C03", c03) }
@@ -312,6 +313,16 @@ func c03(args []string) int {
 	}
 	bfs("hand-written", handNames, hd)
 	bfs("rule-based", ruleNames, rd)
+	// from here on the dynamic-rules checker runs user rules of every filter kind (package-, file- and
+	// version-dependent ones included); constructing it loads the rule file, so its histories are explored apart
+	enableUserRules()
+	bfs("user-rules", []string{"ruleguard"}, rd)
+	var handNoRG []string
+	for _, n := range handNames {
+		if n != "ruleguard" {
+			handNoRG = append(handNoRG, n)
+		}
+	}
 	ev.Set("bfs_depth_hand_written", hd)
 	ev.Set("bfs_depth_rule_based", rd)
 
@@ -389,6 +400,92 @@ func c03(args []string) int {
 		wg.Wait()
 	}
 
+	// type-graph leg: packages whose struct types embed each other in every possible way; every order of the
+	// use-site files on one long-lived set, each file's output compared with a fresh set that sees only that file
+	{
+		var graphs, orders int64
+		jobs := make(chan progenum.Prog, 64)
+		var wg sync.WaitGroup
+		for w := 0; w < runtime.GOMAXPROCS(0); w++ {
+			wg.Add(1)
+			go func() {
+				defer wg.Done()
+				for p0 := range jobs {
+					p := progenum.ValidUseFiles(p0)
+					if len(p.Files) < 3 {
+						continue // fewer than two use sites: no order to explore
+					}
+					pk := harness.Load(p.Path, p.Files)
+					if len(pk.Errs) > 0 {
+						pk.Release()
+						continue
+					}
+					nuse := len(p.Files) - 1
+					ref := make([][]string, nuse)
+					for u := 0; u < nuse; u++ {
+						s, err := harness.NewSet(harness.Infos(handNoRG), "")
+						if err != nil {
+							panic(err)
+						}
+						var prev *harness.Pkg
+						ref[u] = visitTarget(s, target{p.ID, pk, u + 1}, &prev)
+					}
+					mu.Lock()
+					graphs++
+					mu.Unlock()
+					permute(nuse, func(perm []int) {
+						s, err := harness.NewSet(harness.Infos(handNoRG), "")
+						if err != nil {
+							panic(err)
+						}
+						var prev *harness.Pkg
+						mu.Lock()
+						orders++
+						states++
+						transitions += int64(nuse)
+						mu.Unlock()
+						ev.Eval(1)
+						ev.Nontrivial("embed|" + p.ID + fmt.Sprint(perm))
+						for _, u := range perm {
+							out := visitTarget(s, target{p.ID, pk, u + 1}, &prev)
+							if !equalStrings(out, ref[u]) {
+								files := map[string]string{}
+								for _, f := range p.Files {
+									files[f.Name] = f.Src
+								}
+								var order []string
+								for _, v := range perm {
+									order = append(order, p.Files[v+1].Name)
+								}
+								ch := firstDiffChecker(out, ref[u])
+								ev.Violate(evidence.Violation{
+									Key:      fmt.Sprintf("history|type-graph|%s", ch),
+									What:     fmt.Sprintf("diagnostics of %s for a file depend on which other files of the package were analysed before (types that embed each other)", ch),
+									Observed: fmt.Sprintf("%s\norder %v, file %s\nafter the earlier files: %v\nfresh:                 %v", p.ID, order, p.Files[u+1].Name, diffOnly(out, ref[u]), diffOnly(ref[u], out)),
+									Replay:   map[string]interface{}{"kind": "file-order", "path": p.Path, "files": files, "order": order},
+								})
+								return
+							}
+						}
+					})
+					pk.Release()
+				}
+			}()
+		}
+		progenum.EmbedGraphs(2, 3, func(p progenum.Prog) { jobs <- p })
+		if tier == "thorough" {
+			progenum.EmbedGraphs(3, 2, func(p progenum.Prog) { jobs <- p })
+		}
+		close(jobs)
+		wg.Wait()
+		ev.Set("type_graph_packages_with_2plus_use_sites", graphs)
+		ev.Set("type_graph_file_orders", orders)
+		if graphs == 0 {
+			fmt.Fprintln(os.Stderr, "C03: no type-graph package had two use sites (broken check)")
+			return 2
+		}
+	}
+
 	// CLI leg: argument order and grouping
 	c03cli(ev, tier)
 
@@ -397,8 +494,29 @@ func c03(args []string) int {
 	ev.Set("traces_validated_against_impl", states)
 	ev.Set("distinct_outputs", len(distinctOut))
 	ev.Sample(map[string]interface{}{"history": []string{alpha[0].id, alpha[4].id, alpha[0].id}, "oracle": "output for the last visit == output of a fresh checker set on that file alone"})
-	ev.Set("rule", "states = histories (sequences of (package,file) visits) executed on real long-lived checker sets: all sequences up to the stated depth over the alphabet from the initial state (a fresh set per history), plus an Eulerian tour over the complete digraph of example files (every ordered pair as consecutive visits on one long-lived full set), plus every argument permutation/grouping of a 3-package workspace through the real binary. Every history is an implementation run, so traces_validated_against_impl = states")
+	ev.Set("rule", "states = histories (sequences of (package,file) visits) executed on real long-lived checker sets: all sequences up to the stated depth over the alphabet from the initial state (a fresh set per history), plus an Eulerian tour over the complete digraph of example files (every ordered pair as consecutive visits on one long-lived full set), plus, for every package of the type-graph family (2 struct types, each embedding every ordered selection of the other type, a Query+Exec type and a Query-only type; thorough: 3 types), every order of its use-site files on one long-lived set, plus every argument permutation/grouping of a 3-package workspace through the real binary. The dynamic-rules checker with the filter-kind fixture of user rules has a BFS of its own and takes part in the tour. Every history is an implementation run, so traces_validated_against_impl = states")
 	return ev.Finish()
+}
+
+// permute calls f with every permutation of 0..n-1.
+func permute(n int, f func([]int)) {
+	perm := make([]int, n)
+	for i := range perm {
+		perm[i] = i
+	}
+	var rec func(k int)
+	rec = func(k int) {
+		if k == n {
+			f(append([]int{}, perm...))
+			return
+		}
+		for i := k; i < n; i++ {
+			perm[k], perm[i] = perm[i], perm[k]
+			rec(k + 1)
+			perm[k], perm[i] = perm[i], perm[k]
+		}
+	}
+	rec(0)
 }
 
 func equalStrings(a, b []string) bool {
